@@ -8,6 +8,7 @@
  * (ocaml/lanes_driver.ml over Model/LaneMgr.v) prints the same tokens; Python diffs them.
  *
  * case line:   L <id> <algo> <fam> <timeout_s> <op>...      op = S<nblocks>,<seed> | F
+ *              I <id> <algo> <fam>          (translator) what the init function leaves: unused_lanes[], lens[], ...
  * output line: <id> <algo> <fam> | init > STATE | S<n>,<seed> > r=<job|-> d=<digest> STATE | F > ... | end ok
  *   STATE = u=<unused_lanes hex> n=<num_lanes_inuse> l=<lens hex,...> j=<job|-,...> p=<blocks|-,...> c=<w.w..|-,...>
  * Job k (k-th S of the case) has <nblocks> blocks of bytes and an initial result_digest drawn
@@ -146,6 +147,26 @@ static void lc##_state(ISAL_##UC##_MB_JOB_MGR *m, const struct lfam *f)         
                 for (int w = 0; w < NW; w++) printf("%s" FMT, w ? "." : "", (unsigned long long) ((const WORD *) m->args.digest)[w * f->dstride + i]); \
         }                                                                                             \
 }                                                                                                     \
+/* "I" lines (tr/lane_cfg.py): what the init function leaves in the manager, whatever its source looks like:   \
+   run on two different junk fills; every element of unused_lanes[], lens[], and which job_in_lane are set */ \
+static void lc##_init_dump(const struct lfam *f)                                                        \
+{                                                                                                     \
+        static const int fills[2] = { 0xEE, 0x11 };                                                   \
+        for (int k = 0; k < 2; k++) {                                                                 \
+                ISAL_##UC##_MB_JOB_MGR *m = aligned_alloc(64, (sizeof *m + 63) / 64 * 64);            \
+                memset(m, fills[k], sizeof *m);                                                       \
+                f->init(m);                                                                           \
+                const uint64_t *ul = (const uint64_t *) &m->unused_lanes;                             \
+                printf(" | init %02x > ul=", fills[k]);                                               \
+                for (size_t w = 0; w < sizeof m->unused_lanes / 8; w++) printf("%s%llx", w ? "," : "", (unsigned long long) ul[w]); \
+                printf(" n=%llx lens=", (unsigned long long) m->num_lanes_inuse);                     \
+                for (size_t i = 0; i < sizeof m->lens / sizeof m->lens[0]; i++) printf("%s%llx", i ? "," : "", (unsigned long long) m->lens[i]); \
+                printf(" jobs=");                                                                     \
+                for (size_t i = 0; i < sizeof m->ldata / sizeof m->ldata[0]; i++) printf("%s", m->ldata[i].job_in_lane ? "1" : "0"); \
+                free(m);                                                                              \
+        }                                                                                             \
+        printf(" | end ok\n");                                                                        \
+}                                                                                                     \
 static void lc##_run(const struct lfam *f, char **ops, int nops, int tmo)                             \
 {                                                                                                     \
         size_t pg = 4096, msz = sizeof(ISAL_##UC##_MB_JOB_MGR);                                       \
@@ -241,6 +262,21 @@ main(void)
                 char **tok = malloc(sizeof(char *) * ((size_t) n / 2 + 8));
                 int nt = 0;
                 for (char *t = strtok(line, " \t\r\n"); t; t = strtok(NULL, " \t\r\n")) tok[nt++] = t;
+                if (nt >= 4 && !strcmp(tok[0], "I")) {
+                        printf("%s %s %s", tok[1], tok[2], tok[3]);
+                        const struct lfam *g = NULL;
+                        for (const struct lfam *q = lfams; q->algo; q++)
+                                if (!strcmp(q->algo, tok[2]) && !strcmp(q->fam, tok[3])) g = q;
+                        if (!g) printf(" | end nofamily\n");
+                        else if (!strcmp(g->algo, "md5")) md5_init_dump(g);
+                        else if (!strcmp(g->algo, "sha1")) sha1_init_dump(g);
+                        else if (!strcmp(g->algo, "sha256")) sha256_init_dump(g);
+                        else if (!strcmp(g->algo, "sha512")) sha512_init_dump(g);
+                        else if (!strcmp(g->algo, "sm3")) sm3_init_dump(g);
+                        fflush(stdout);
+                        free(tok);
+                        continue;
+                }
                 if (nt < 5 || strcmp(tok[0], "L")) { free(tok); continue; }
                 printf("%s %s %s", tok[1], tok[2], tok[3]);
                 const struct lfam *f = NULL;
